@@ -580,7 +580,9 @@ Definition binop_type (o : binop) (a b : ty) : option ty :=
        | OLt | OLe | OGt | OGe => match a with TInt | TFloat | TString => Some TBool | _ => None end
        | OAdd => match a with TInt | TFloat | TString => Some a | _ => None end
        | OSub => match a with TInt | TFloat => Some a | _ => None end
-       | OMul | OQuo | ORem | OAnd | OOr | OXor | OShl | OShr | OAndNot => match a with TInt => Some a | _ => None end
+       (* float * and / are typed, but not evaluated: without rounding and signed zeros the model would misstate them *)
+       | OMul | OQuo => match a with TInt | TFloat => Some a | _ => None end
+       | ORem | OAnd | OOr | OXor | OShl | OShr | OAndNot => match a with TInt => Some a | _ => None end
        end.
 
 Definition lit_type_ok (k : litkind) (text : string) (t : ty) : bool :=
